@@ -114,6 +114,7 @@ def _variants_full():
     for s in (0.0, 1.0, 0.5):
         v.append(node('defense', s, ttc=ENABLED))
     v.append(node('defense', 0.0, ttc=DIST))
+    v.append(node('defense', 1.0, ttc=ENABLED, tags=['suppress']))   # the suppress tag concerns the queries only
     for t in ('exist', 'notExist'):
         for s in (False, True):
             v.append(node(t, s))
@@ -170,7 +171,7 @@ def _enum_three(tier):
 
 @st.composite
 def random_cases(draw):
-    g = draw(aggen.graphs(max_nodes=12, min_nodes=2, tags=False))
+    g = draw(aggen.graphs(max_nodes=12, min_nodes=2, tags=True))   # tags (e.g. suppress) must not matter
     n = len(g['nodes'])
     orders = [list(range(n)), list(reversed(range(n)))] + \
         [draw(st.permutations(list(range(n)))) for _ in range(4)]
